@@ -26,6 +26,7 @@ NOT_DECIDED = ["equality of the incremental and the full tree for all pairs of t
 
 def run(ctx, rep):
     prog = ctx.prog
+    wiring_rule(ctx, rep, "C11")
     for r, tx in (("C11.a", "match predicate compares type, size, mtime and (unless ignored) ctime"), ("C11.b", "content is reused only if all chunks are indexed"),
                   ("C11.d", "force disables parents"), ("C11.e", "parent cursor discipline")):
         rep.rule(r, tx)
@@ -103,6 +104,36 @@ def run(ctx, rep):
         sl = flow.backward_slice(m, [0])
         hasns = any(c.endswith("MetadataExt::ctime_nsec") or c.endswith("::ctime_nsec") for c in sl["calls"])
         rep.check("C11.a", "ctime-resolution", hasns, where=m.loc(), what="the recorded ctime includes nanoseconds" if hasns else "the recorded ctime is truncated to whole seconds: a ctime change within the same second is invisible to parent matching")
+    # ---- C11.f: options are handed to Parent::new in the order of its parameters; loaded trees and their ids stay paired ----
+    rep.rule("C11.f", "parent construction: arguments wired to the parameters of the same name; tree ids kept only for trees that could be loaded")
+    nsw = 0
+    for b_ in prog.by_crate["rustic_core"]:
+        for bb_, t_ in b_.calls():
+            if "callee" in t_ and callee(t_).startswith("rustic_core::archiver::"):
+                sw_ = swapped_args(prog, b_, bb_, t_)
+                nsw += 1
+                if sw_ or callee(t_).endswith("archiver::parent::Parent::new"):
+                    rep.check("C11.f", f"wiring/{fn_key(b_)}/{strip_crate(callee(t_))}", not sw_, where=where(b_, bb_),
+                              what=f"{fn_key(b_)}: arguments of {strip_crate(callee(t_))} are passed in parameter order" if not sw_ else
+                                   f"{fn_key(b_)}: arguments crossed in the call of {strip_crate(callee(t_))}: {[(f'arg {i}: `{a}` is passed for parameter `{p_}`') for i, a, p_ in sw_]}")
+    PN_ = prog.find1(r"^rustic_core::archiver::parent::Parent::new$")
+    ag = [(bi, s_) for bi, blk in enumerate(PN_.blocks) for s_ in blk["s"] if s_[0] == "=" and s_[2][0] == "agg" and s_[2][1][0] == "adt" and s_[2][1][1].endswith("archiver::parent::Parent")]
+    okp = False
+    if len(ag) == 1:
+        bi, s_ = ag[0]
+        names = s_[2][1][3]
+        if "tree_ids" in names and "trees" in names:
+            e1 = flow.expr_of(PN_, s_[2][2][names.index("tree_ids")], bi)
+            e2 = flow.expr_of(PN_, s_[2][2][names.index("trees")], bi)
+
+            def producer(e):
+                # the call whose (tuple) result the field is a component of
+                while e[0] == "proj":
+                    e = e[1]
+                return (e[1], e[3]) if e[0] == "call" and len(e) > 3 else None
+            okp = producer(e1) is not None and producer(e1) == producer(e2) and producer(e1)[0].endswith("unzip")
+    rep.check("C11.f", "tree-ids-paired-with-loaded-trees", okp, where=PN_.loc(), what="Parent::new keeps a parent tree id only together with its successfully loaded tree (both come from one unzip)" if okp else
+              "Parent::new keeps ids of parent trees that could not be loaded: the 'unchanged root tree' shortcut can then refer to a tree that is not in the repository")
     # ---- C11.b -------------------------------------------------------------------------------------
     PR = prog.find1(r"^rustic_core::archiver::parent::Parent::process$")
     clone_from = [bb for bb, t in PR.calls() if "callee" in t and re.search(r"Clone>::clone_from$|::clone_from$", callee(t)) and "content" in (flow.backward_slice(PR, op_place(t["args"][0]))["fields"] if op_place(t["args"][0]) else set())]
